@@ -11,10 +11,6 @@ Local Open Scope nat_scope.
 (* od_generic: decl.Generic != nil; od_ret: the declared return type (only the als operator looks at it) *)
 Record odecl := mkODecl { od_id : N; od_params : list param; od_generic : bool; od_ret : ty }.
 
-(* GetNestedListElementType *)
-Fixpoint nested_elem (t : ty) : ty := match t with TList e => nested_elem e | _ => t end.
-(* CastDeeplyNestedGenerics (without generic structs): the innermost element type is a type parameter *)
-Definition deep_generic (t : ty) : bool := is_tgen (nested_elem t).
 
 Definition ogen_count (d : odecl) : nat := length (filter (fun p => deep_generic (p_ty p)) (od_params d)).
 Definition oref_count (d : odecl) : nat := length (filter p_ref (od_params d)).
